@@ -198,6 +198,9 @@ func convCaseP(cc *pj.ConvCase, unknown, primed bool) core.Case {
 							add("p2j.DoInto", "error-presence-differs-from-Do", "cap=%d: DoInto err=%v, Do err=%v", cp, e2, cerr)
 							break
 						}
+						if e2 == nil && poolpoison.Aliased(buf) {
+							add("p2j.DoInto", "result-aliases-pooled-buffer", "cap=%d: the %d bytes DoInto left in the caller's buffer change when the pooled buffers are overwritten", cp, len(buf))
+						}
 						if e2 == nil && !bytes.Equal(buf, out) {
 							add("p2j.DoInto", "output-differs-from-Do", "cap=%d: DoInto %s, Do %s", cp, buf, out)
 							break
